@@ -87,6 +87,66 @@ def run():
     bbase = open(os.path.join(vlib.SPEC, "MC_Bisection.cfg")).read().replace("PROPERTY Terminates", "")
     expect_counterexample(t, "Bisection{FirstMidpointOutside} evaluates outside the bracket", "MC_Bisection",
                           bbase.replace("Defects = {}", 'Defects = {"FirstMidpointOutside"}'))
+    brbase = open(os.path.join(vlib.SPEC, "MC_Brent_any.cfg")).read().replace("PROPERTY Terminates", "").replace("W = 24", "W = 12")
+    expect_counterexample(t, "Brent{NoRangeSafeguard} evaluates outside the bracket", "MC_Brent",
+                          brbase.replace("Defects = {}", 'Defects = {"NoRangeSafeguard"}'))
+    expect_counterexample(t, "Brent{ReturnSAlways} returns a non-root", "MC_Brent",
+                          brbase.replace("Defects = {}", 'Defects = {"ReturnSAlways"}'))
+    # ---- unbounded lemmas of the Brent design (TLAPS) -----------------------------------------------------
+    import shutil
+    import tempfile
+    tmp = tempfile.mkdtemp(prefix="tlaps", dir=os.path.join(vlib.VERIF, "work"))
+    try:
+        shutil.copy(os.path.join(vlib.SPEC, "BrentLemmas.tla"), tmp)
+        p = vlib.sh(["timeout", "300", "tlapm", "--threads", "4", "BrentLemmas.tla"], cwd=tmp, check=False, timeout=400)
+        t.check("TLAPS proves BrentLemmas (dead inverse-quadratic branch, points inside the bracket)", "All 3 obligations proved" in p.stdout,
+                p.stdout.strip().splitlines()[-1][:80] if p.stdout.strip() else "")
+    finally:
+        shutil.rmtree(tmp, ignore_errors=True)
+    # ---- binding: design-level traces of brent() and integrate_simpson() ---------------------------------
+    import fncommon
+    from checks import c07, c09
+    ctx0 = vlib.Ctx("SELFTEST", "quick", 1, "other")
+    rng0 = random.Random(11)
+    bc = [c for c in c07.seeded(ctx0, rng0, 90) if c["solver"] == "brent"][:25]
+    for k, c in enumerate(bc):
+        c["id"] = k + 1
+    keys = ("id", "solver", "a", "b", "tol", "evals", "n", "ret", "x")
+    brows = [{k: r[k] for k in keys} for r in fncommon.observe(ctx0, "bracket", bc, "stb", nproc=1)]
+    fncommon.validate(ctx0, brows, "Trace_Brent", "stb", nshards=1)
+    t.check("clean brent() abscissa traces explained bit for bit by Brent over doubles", not ctx0.drift and len(brows) == 25, "%d runs" % len(brows))
+    j = next(k for k, r in enumerate(brows) if r["n"] >= 6 and r["ret"] == "ok")
+    b2 = copy.deepcopy(brows)
+    b2[j]["evals"][4][0] = bump(b2[j]["evals"][4][0], 1)
+    ctx0.drift = []
+    fncommon.validate(ctx0, b2, "Trace_Brent", "stb", nshards=1)
+    t.check("one brent abscissa changed by one ulp -> that run is rejected (drift)", [d["case"] for d in ctx0.drift] == [brows[j]["id"]])
+    b2 = copy.deepcopy(brows)
+    del b2[j]["evals"][3]
+    b2[j]["n"] -= 1
+    ctx0.drift = []
+    fncommon.validate(ctx0, b2, "Trace_Brent", "stb", nshards=1)
+    t.check("one brent evaluation removed -> that run is rejected (drift)", [d["case"] for d in ctx0.drift] == [brows[j]["id"]])
+    sc = [c for c in c09.gen(ctx0, rng0, 400) if c["routine"] == "simpson" and not c["cx"] and c["n"] == 40][:15]
+    for k, c in enumerate(sc):
+        c["id"] = k + 1
+    keys = ("id", "routine", "cx", "a", "b", "tol", "n", "evals", "calls", "ret", "val")
+    srows = [{k: r[k] for k in keys} for r in fncommon.observe(ctx0, "quad", sc, "sts", nproc=1)]
+    srows = [r for r in srows if r["calls"] <= len(r["evals"])]
+    ctx0.drift = []
+    fncommon.validate(ctx0, srows, "Trace_Simpson", "sts", nshards=1, env={"VH_NMAX": 40})
+    t.check("clean integrate_simpson() traces explained bit for bit through SimpsonStack's actions", not ctx0.drift and len(srows) >= 10, "%d runs" % len(srows))
+    j = next(k for k, r in enumerate(srows) if r["calls"] >= 9 and r["ret"] == "ok")
+    s2 = copy.deepcopy(srows)
+    s2[j]["val"][0] = bump(s2[j]["val"][0], 1)
+    ctx0.drift = []
+    fncommon.validate(ctx0, s2, "Trace_Simpson", "sts", nshards=1, env={"VH_NMAX": 40})
+    t.check("returned area changed by one ulp -> that run is rejected (drift)", [d["case"] for d in ctx0.drift] == [srows[j]["id"]])
+    s2 = copy.deepcopy(srows)
+    s2[j]["evals"][5], s2[j]["evals"][6] = s2[j]["evals"][6], s2[j]["evals"][5]
+    ctx0.drift = []
+    fncommon.validate(ctx0, s2, "Trace_Simpson", "sts", nshards=1, env={"VH_NMAX": 40})
+    t.check("two simpson evaluations swapped -> that run is rejected (drift)", [d["case"] for d in ctx0.drift] == [srows[j]["id"]])
     # ---- binding: IVP contract trace -----------------------------------------------------------------
     ctx = vlib.Ctx("SELFTEST", "quick", 1, "other")
     rng = random.Random(7)
